@@ -276,7 +276,7 @@ def fromstring_case(cls_):
             made['months'] = kw.get('months', VInt(0))
             made['seconds'] = kw.get('seconds', VInt(0))
             return VObj(_Match, {'months': made['months'], 'seconds': made['seconds']}, name='duration')
-        hooks = {'cls.pattern.match': match, 'match.groups': groups, 'cls': construct, 'text.strip': lambda ex, node, a, kw: text}
+        hooks = {'cls.pattern.match': match, 'match.groups': groups, 'cls': construct, 'text.strip': lambda ex, node, a, kw: text, 'collapse_white_spaces': lambda ex, node, a, kw: text}
         return Case([VNative(cls_), text], hooks=hooks, names={'negative': neg})
     return setup
 
@@ -396,9 +396,9 @@ def timeline_vs_reference(tier, seed):
         mk = parser.parse('xs:dateTime($t)')
         mkdur = parser.parse('xs:dayTimeDuration($t)')
 
-        def ev(tok, **v):
+        def ev(tok, _tz='Z', **v):
             try:
-                return 'ok', tok.evaluate(XPathContext(root=None, item=1, variables=v, timezone='Z'))
+                return 'ok', tok.evaluate(XPathContext(root=None, item=1, variables=v, timezone=_tz))
             except ElementPathError as e:
                 return 'err', e.code
             except Exception as e:      # noqa
@@ -426,8 +426,10 @@ def timeline_vs_reference(tier, seed):
             w = dict(a=ta, b=tb, xsd=version)
             for op, want in (('eq', ia == ib), ('lt', ia < ib), ('gt', ia > ib), ('le', ia <= ib)):
                 got = ev(cmp_toks[op], a=a, b=b)
-                if got != ('ok', want):
-                    bad(f'value comparison of dateTimes is not the timeline order ({_range_family(ta, tb)})', **w, op=op, got=repr(got)[:60], want=want)
+                got0 = ev(cmp_toks[op], None, a=a, b=b)          # no implicit timezone in the context: UTC is used
+                if got != ('ok', want) or got0 != ('ok', want):
+                    bad(f'value comparison of dateTimes is not the timeline order ({_range_family(ta, tb)})', **w, op=op, got=repr(got)[:60],
+                        without_context_timezone=repr(got0)[:60], want=want)
                     break
             st, dlt = ev(sub, a=a, b=b)
             if st != 'ok':
